@@ -5,7 +5,8 @@
 
    ORACLES (inputs computed by the real Python, one record per evaluated value -- never axioms):
      o_str       str(v) for non-atomic v (lists, dicts, literal zones)
-     o_float     float(v) for strings and for ints above 2^53   (None = ValueError/TypeError)
+     o_float     float(v) for strings (None = ValueError); ints and floats are never converted (RANGE compares
+                 them as they are, exactly, at any size)
      o_fromiso   datetime.fromisoformat(str(v)) succeeds                     (DATE, after the shape test)
      o_fromiso_z datetime.fromisoformat(str(v).replace("Z","+00:00")) succeeds   (ISO8601)
      o_re p      re.compile(p).match(str(v)) is not None                     (REGEX) *)
@@ -97,10 +98,10 @@ Definition eval (o : orc) (k : cst) (v : pyval) : res :=
       if negb (is_list v) then fail (code_of k_AppendOnly 0) else ok
   | CRange lo hi =>
       if is_bool v then fail (code_of k_Range 0)
-      else match to_float (o_float o) v with
-           | None => fail (code_of k_Range 1)
-           | Some x => if fl_ltb x lo || fl_ltb hi x then fail (code_of k_Range 2) else ok
-           end
+      else match num_value (o_float o) v with
+           | None => fail (code_of k_Range 1)        (* ValueError / TypeError / OverflowError of float(value) *)
+           | Some x => if negb (fl_leb lo x && fl_leb x hi) then fail (code_of k_Range 2) else ok
+           end                                        (* `not (lo <= x <= hi)`: nan fails both comparisons *)
   | CMaxLen n =>
       match py_len v with
       | None => fail (code_of k_MaxLength 0)
